@@ -791,10 +791,17 @@ class ODLEncoder(PVLEncoder):
 
         t = super().encode_time(value)
 
-        if value.utcoffset() == datetime.timedelta():
+        offset = value.utcoffset()
+        if offset == datetime.timedelta():
             return t + "Z"
         else:
-            td_str = str(value.utcoffset())
+            if abs(offset) >= datetime.timedelta(hours=13):
+                raise ValueError(
+                    "ODL time zone offsets can be at most 12 hours (and "
+                    f"some minutes) from UTC, but this is not: {value}"
+                )
+            sign = "+" if offset > datetime.timedelta() else "-"
+            td_str = str(abs(offset))
             (h, m, s) = td_str.split(":")
             if s != "00":
                 raise ValueError(
@@ -803,11 +810,9 @@ class ODLEncoder(PVLEncoder):
                     "not allowed in ODL."
                 )
             if m == "00":
-                return t + f"+{h:0>2}"
+                return t + f"{sign}{h:0>2}"
             else:
-                return t + f"+{h:0>2}:{m}"
-
-        return t
+                return t + f"{sign}{h:0>2}:{m}"
 
     def encode_units(self, value) -> str:
         """Overrides parent function since ODL limits what characters
